@@ -19,7 +19,10 @@ def main():
         from . import replay
         return replay.run(prop, mod, json.load(open(path)))
     from . import runner
-    return runner.run(mod.PLAN, tier)
+    specs = None
+    if os.environ.get("VF_SPEC"):   # debugging aid: VF_SPEC="asan:4,plain:2"
+        specs = [(v.split(":")[0], int(v.split(":")[1]), prop) for v in os.environ["VF_SPEC"].split(",")]
+    return runner.run(mod.PLAN, tier, specs)
 
 
 if __name__ == "__main__":
